@@ -56,12 +56,13 @@ def gen_cases(tier, seed):
                         cases.append(dict(part='transparent', pattern=pattern, n=n, t0=0.0, wa=wa, step=step,
                                           samples=[], models=models, form=form))
     motions = (0, 1, 2)
-    mixes = ('P', 'PV', 'PVB')
+    mixes = ('P', 'PV', 'PVB', 'PVs')       # PVs: velocity fixes share their time stamps with position fixes
     classes = ('bias', 'sm')
     steps = (0.5, 1.0)
     for mo, mix, cl, st, wa in itertools.product(motions, mixes, classes, steps, (True, False)):
         k = motions.index(mo) + mixes.index(mix) + classes.index(cl) + steps.index(st) + int(wa)
-        if tier == 'quick' and (k + seed) % 4 != 0:
+        always = mo == 0 and st == 0.5 and ((mix == 'PVs' and cl == 'bias') or (mix == 'PVB' and cl == 'sm'))
+        if tier == 'quick' and (k + seed) % 4 != 0 and not always:
             continue
         cases.append(dict(part='equivalence', motion=mo, mix=mix, cls=cl, step=st, wa=wa))
     for L in (1, 2, 3):
@@ -147,9 +148,9 @@ def run_pair(case, s):
             transform.perturb_lla(pm[['lat', 'lon', 'alt']].values, s * 1.0 * nz[20::40]), index=pm.index,
             columns=['lat', 'lon', 'alt']), 1.0 * s))
     if 'V' in case['mix']:
-        vm = ref.iloc[30::40]
+        vm = ref.iloc[20::40] if 's' in case['mix'] else ref.iloc[30::40]
         meas.append(measurements.NedVelocity(pd.DataFrame(
-            vm[['VN', 'VE', 'VD']].values + s * 0.1 * nz[30::40], index=vm.index, columns=['VN', 'VE', 'VD']), 0.1 * s))
+            vm[['VN', 'VE', 'VD']].values + s * 0.1 * nz[30::40][:len(vm)], index=vm.index, columns=['VN', 'VE', 'VD']), 0.1 * s))
     if 'B' in case['mix']:
         bm = ref.iloc[10::40]
         bd = sim.generate_body_velocity_measurements(bm, 0.0, rng=0) + s * 0.1 * nz[10::40]
